@@ -105,7 +105,7 @@ impl Scenario for S2 {
                 1 => vec![0xff; nl],
                 _ => st.data.bytes(nl),
             };
-            tasks.push(J::obj().set("key", J::S(hex(&key))).set("nonce", J::S(hex(&nonce))));
+            tasks.push(J::obj().set("key", J::S(hex(&key))).set("nonce", J::S(hex(&nonce))).set("kalign", J::U(st.place.below(16) as u128)));
         }
         let c15 = mix == "C15";
         let swarm = J::obj()
@@ -130,9 +130,16 @@ impl Scenario for S2 {
             if nonce.len() != 12 {
                 nonce.resize(8, 0);
             }
-            let mut kb = [0u8; 32];
-            kb.copy_from_slice(&key);
-            let real = ChaCha::new(&kb, &nonce);
+            // key and nonce at a chosen alignment (the caller's buffers are part of the environment)
+            let ka = (t.u_or("kalign", 0) % 16) as usize;
+            let mut store = vec![0u8; 32 + 16 + 32 + 16 + 16];
+            let base = (16 - (store.as_ptr() as usize % 16)) % 16;
+            let ko = base + ka;
+            store[ko..ko + 32].copy_from_slice(&key);
+            let no = base + 48 + (ka * 7 + 3) % 16;
+            store[no..no + nonce.len()].copy_from_slice(&nonce);
+            let karr: &[u8; 32] = store[ko..ko + 32].try_into().unwrap();
+            let real = ChaCha::new(karr, &store[no..no + nonce.len()]);
             let w = |b: &[u8]| u32::from_le_bytes([b[0], b[1], b[2], b[3]]);
             let d = if nonce.len() == 12 { [0, w(&nonce[0..4]), w(&nonce[4..8]), w(&nonce[8..12])] } else { [0, 0, w(&nonce[0..4]), w(&nonce[4..8])] };
             tasks.push(Task { real, key: spec::key_words(&key), d });
@@ -173,7 +180,7 @@ impl Scenario for S2 {
                 Op::new(ti, "setp", &[("param", param), ("value", v as u128)])
             }
             "getp" => Op::new(ti, "getp", &[("param", r.below(2) as u128)]),
-            "derive" => Op::new(ti, "derive", &[("how", r.below(7) as u128), ("bit", r.below(32) as u128), ("word", r.below(8) as u128), ("k", r.range(1, 5) as u128)]),
+            "derive" => Op::new(ti, "derive", &[("how", r.below(12) as u128), ("bit", r.below(32) as u128), ("word", r.below(8) as u128), ("k", r.range(1, 5) as u128), ("mask", if r.chance(1, 2) { 0 } else { r.next() as u32 as u128 })]),
             _ => Op::new(ti, "direct", &[("dr", dr_value(r))]),
         })
     }
@@ -507,14 +514,17 @@ fn step_inner(w: &mut World, ti: usize, op: &Op, stats: &mut Stats, rh: &mut u64
             if w.tasks.len() >= 8 {
                 return Step::Skip;
             }
-            let how = op.get("how") % 7;
+            let how = op.get("how") % 12;
+            // how 7..=11: several words differ at once, often by the same mask (differences that would cancel under xor)
+            let mask: u32 = if op.get("mask") as u32 != 0 { op.get("mask") as u32 } else { 1u32 << ((op.get("bit") % 32) as u32) };
+            const HOWS: [&str; 12] = ["clone", "refills", "key_word", "d1", "d2", "d3", "rebuilt", "d2+d3", "d1+d2", "d1+d3", "two_key_words", "key_word+d3"];
             let bit = (op.get("bit") % 32) as u32;
             let word = (op.get("word") % 8) as usize;
             let k = op.get("k").min(8) as u32;
             let (akey, ad) = (w.tasks[ti].key, w.tasks[ti].d);
             let mut bkey = akey;
             let mut bd = ad;
-            stats.hit(&format!("op.derive.{}", ["clone", "refills", "key_word", "d1", "d2", "d3", "rebuilt"][how as usize]));
+            stats.hit(&format!("op.derive.{}", HOWS[how as usize]));
             let a = w.tasks[ti].real.clone();
             let made = guarded(|| {
                 let mut b = a.clone();
@@ -534,7 +544,29 @@ fn step_inner(w: &mut World, ti: usize, op: &Op, stats: &mut Stats, rh: &mut u64
                     3 => b.set_stream_param(0, ctr(&ad) ^ (1u64 << (32 + bit))),
                     4 => b.set_stream_param(1, sid(&ad) ^ (1u64 << bit)),
                     5 => b.set_stream_param(1, sid(&ad) ^ (1u64 << (32 + bit))),
-                    _ => b = direct(&akey, &ad),
+                    6 => b = direct(&akey, &ad),
+                    7 => b.set_stream_param(1, sid(&ad) ^ (mask as u64) ^ ((mask as u64) << 32)),
+                    8 => {
+                        b.set_stream_param(0, ctr(&ad) ^ ((mask as u64) << 32));
+                        b.set_stream_param(1, sid(&ad) ^ (mask as u64));
+                    }
+                    9 => {
+                        b.set_stream_param(0, ctr(&ad) ^ ((mask as u64) << 32));
+                        b.set_stream_param(1, sid(&ad) ^ ((mask as u64) << 32));
+                    }
+                    10 => {
+                        let mut kk = akey;
+                        kk[word] ^= mask;
+                        kk[(word + 1 + (bit as usize % 7)) % 8] ^= mask;
+                        b = direct(&kk, &ad);
+                    }
+                    _ => {
+                        let mut kk = akey;
+                        kk[word] ^= mask;
+                        let mut dd = ad;
+                        dd[3] ^= mask;
+                        b = direct(&kk, &dd);
+                    }
                 }
                 b
             });
@@ -551,6 +583,26 @@ fn step_inner(w: &mut World, ti: usize, op: &Op, stats: &mut Stats, rh: &mut u64
                 3 => bd[1] ^= 1 << bit,
                 4 => bd[2] ^= 1 << bit,
                 5 => bd[3] ^= 1 << bit,
+                7 => {
+                    bd[2] ^= mask;
+                    bd[3] ^= mask;
+                }
+                8 => {
+                    bd[1] ^= mask;
+                    bd[2] ^= mask;
+                }
+                9 => {
+                    bd[1] ^= mask;
+                    bd[3] ^= mask;
+                }
+                10 => {
+                    bkey[word] ^= mask;
+                    bkey[(word + 1 + (bit as usize % 7)) % 8] ^= mask;
+                }
+                11 => {
+                    bkey[word] ^= mask;
+                    bd[3] ^= mask;
+                }
                 _ => {}
             }
             let same_key = akey == bkey;
@@ -559,7 +611,7 @@ fn step_inner(w: &mut World, ti: usize, op: &Op, stats: &mut Stats, rh: &mut u64
             let a = &w.tasks[ti].real;
             let (g32, g64, r32, r64) = (a.stream32_eq(&b), a.stream64_eq(&b), b.stream32_eq(a), b.stream64_eq(a));
             *rh = (g32 as u64) | (g64 as u64) << 1;
-            let hows = ["clone", "refills", "key_word", "d1", "d2", "d3", "rebuilt"][how as usize];
+            let hows = HOWS[how as usize];
             if g32 != want32 || r32 != want32 {
                 return Step::Fail(Violation::new(
                     &["C15"],
